@@ -116,6 +116,69 @@ def conformance(ctx):
 MONITORS = [accumulator, pulse_phase, conformance]
 
 
+# ---- templates built several times ----------------------------------------------------------------
+def build_history_cases(tier):
+    """One template (mappable or concrete register; shifts before and after the first variable) built for every sequence of 2-3
+    assignments: each built sequence's references are the sum of ITS shifts, and the template's own references stay put."""
+    import itertools
+
+    vals = (0.5, 1.25, -2.0)
+    out = []
+    for mappable in (False, True):
+        for n in (2, 3):
+            for seqv in itertools.product(vals, repeat=n):
+                out.append(("builds", mappable, seqv))
+    return out
+
+
+def check_build_history(mappable, seqv):
+    import warnings
+
+    from pulser import Pulse, Register, Sequence
+    from pulser.register.mappable_reg import MappableRegister
+    from pulser.register.register_layout import RegisterLayout
+
+    out = []
+    w = World(corner("unit", prefix=[]))
+    with warnings.catch_warnings():
+        warnings.simplefilter("ignore")
+        L = RegisterLayout([(0.0, 0.0), (8.0, 0.0), (0.0, 8.0)])
+        qids = ["q0", "q1", "q2"]
+        reg = MappableRegister(L, *qids) if mappable else L.define_register(0, 1, 2, qubit_ids=qids)
+        t = Sequence(reg, w.device)
+        t.declare_channel("r", "rydberg_local", initial_target="q0")
+        a0, a1 = 0.75, 0.3
+        t.phase_shift(a0, "q0", basis="ground-rydberg")
+        v = t.declare_variable("v", dtype=float)
+        t.phase_shift(v, "q0", basis="ground-rydberg")
+        t.add(Pulse.ConstantPulse(52, 1.0, 0.0, 0.25, post_phase_shift=2 * v), "r")
+        t.phase_shift(a1, "q1", basis="ground-rydberg")
+        t.add(Pulse.ConstantPulse(52, 1.0, 0.0, 0.5), "r")
+        kw = {"qubits": {"q0": 0, "q1": 1, "q2": 2}} if mappable else {}
+        built = []
+        for i, x in enumerate(seqv):
+            b = t.build(v=x, **kw)
+            built.append((x, b))
+            # every sequence built so far (they must not share anything either)
+            for j, (xj, bj) in enumerate(built):
+                want = {"q0": a0 + xj + 2 * xj, "q1": a1, "q2": 0.0}
+                for q, wv in want.items():
+                    got = float(bj.current_phase_ref(q, "ground-rydberg"))
+                    if _pd(got, wv) > 1e-9:
+                        out.append((f"C07:built-sequence-reference-is-not-the-sum-of-its-shifts:{'mappable' if mappable else 'concrete'}:{'later-build-changed-it' if j < i else 'build-' + str(min(i, 1) + 1)}",
+                                    f"builds {seqv[:i + 1]}: build #{j + 1} (v={xj}) has reference {got:.6f} for {q}, its shifts add up to {wv % TWO_PI:.6f}"))
+                pulses = [sl for sl in bj._schedule["r"].slots if not isinstance(sl.type, str)]
+                wantp = [0.25 + a0 + xj, 0.5 + a0 + 3 * xj]
+                for sl, wp in zip(pulses, wantp):
+                    if _pd(float(sl.type.phase), wp) > 1e-9:
+                        out.append((f"C07:built-pulse-phase:{'mappable' if mappable else 'concrete'}", f"builds {seqv[:i + 1]}: build #{j + 1} pulse at {sl.ti} has phase {float(sl.type.phase):.6f}, expected {wp % TWO_PI:.6f}"))
+            # the template: only the shift made before the first variable has been applied to it
+            got_t = float(t._basis_ref["ground-rydberg"]["q0"].phase.last_phase)
+            if _pd(got_t, a0) > 1e-9:
+                out.append((f"C07:building-changed-the-templates-reference:{'mappable' if mappable else 'concrete'}", f"after builds {seqv[:i + 1]} the template's q0 reference is {got_t:.6f}, expected {a0}"))
+    return out + [("@builds", "")]
+
+
 # ---- Ramsey clause on the emulator --------------------------------------------------------------
 def ramsey_cases(tier):
     n = 24 if tier == "quick" else 96
@@ -211,12 +274,19 @@ def run(tier, seed):
             res.add(Violation(f"C07:ramsey:{case[1]}:{case[0]}:{case[4]}",
                               f"phi={case[3]}: P(excited)={p:.6f}, cos^2(phi/2)={exp:.6f}",
                               {"engine": "ramsey", "case": list(case)}))
+    bcases = build_history_cases(tier)
+    for bc in bcases:
+        res.activations["build_histories"] = res.activations.get("build_histories", 0) + 1
+        for fp, d in check_build_history(bc[1], bc[2]):
+            if not fp.startswith("@"):
+                res.add(Violation(fp, d, {"engine": "builds", "case": [bc[0], bc[1], list(bc[2])]}))
+    cov["build_histories"] = len(bcases)
     cov["ramsey_cases"] = len(cases)
     cov["ramsey_max_abs_error"] = worst
     cov["rule"] = ("BFS over call histories (phase shifts on subsets/bases, post-phase-shifts, retargets, EOM) with an independent "
                    "accumulator per (basis, atom); Ramsey pairs on the emulator for a phi grid incl. negatives and > 2pi")
     res.coverage = cov
-    res.required_activations = ["ref_increments", "pulse_with_nonzero_ref", "pulse_after_shift", "refsched_compared", "ramsey_runs"]
+    res.required_activations = ["ref_increments", "pulse_with_nonzero_ref", "pulse_after_shift", "refsched_compared", "ramsey_runs", "build_histories"]
     res.assumptions = ["EOM drift corrections are compared with RefSched's documented-rule value, not re-derived physically here (C15c)",
                        "Ramsey tolerance 1e-4 on the solver output"]
     return res
@@ -229,4 +299,7 @@ def replay(payload):
         if abs(p - exp) > 1e-4:
             return [Violation(f"C07:ramsey:{case[1]}:{case[0]}:{case[4]}", f"P={p} vs {exp}", payload)]
         return []
+    if payload.get("engine") == "builds":
+        c = payload["case"]
+        return [Violation(fp, d, payload) for fp, d in check_build_history(c[1], tuple(c[2])) if not fp.startswith("@")]
     return seqx.replay(payload, MONITORS)
